@@ -128,9 +128,13 @@ package tree
 
 //@ func (*tree.Tree).CommonEdges
 //@   flag noframe
+//@   flag countcalls
 //@   requires t != nil && t2 != nil
 //@   call (*tree.Tree).CompareTipIndexes [taxon_sets_are_compared_first] a0 == t && a1 == t2
 //@   call tree.CommonEdges [all_branches_of_both_trees_with_the_same_tip_option] a2 == tipEdges && err == nil
+//@   call tree.CommonEdges [the_branches_of_this_tree_first_those_of_the_other_tree_second] a0 == edges1 && a1 == edges2
+//@   call (*tree.Tree).Edges [the_first_list_is_this_tree_s_the_second_the_other_tree_s] a0 == (ghost(ncalls_Edges) == old(ghost(ncalls_Edges)) ? t : t2)
+//@   return [the_counts_come_back_in_the_order_they_were_computed] err == nil ==> result0 == tree1 && result1 == common
 //@   ensures [a_taxon_mismatch_is_an_error] result2 == nil ==> len(t.tipIndex) == len(t2.tipIndex) && len(t.tipIndex) != 0
 
 // ---------------------------------------------------------------------------
@@ -715,6 +719,7 @@ package tree
 //@ func (*tree.Tree).resolveRecur
 //@   flag noframe
 //@   flag lightcalls
+//@   flag countcalls
 //@   requires t != nil && current != nil
 //@   ensures [at_most_three_neighbours_left] len(current.neigh) <= 3
 //@   call (*tree.Tree).ConnectNodes [detached_neighbour_goes_under_the_new_node] a1 == n2 && a2 == other && other == e.right
@@ -729,8 +734,11 @@ package tree
 //@     complete [all_iterations_no_early_exit]
 //@   loop 3
 //@     complete [all_iterations_no_early_exit]
+//@     step [the_new_node_is_joined_to_the_current_one_by_a_branch_with_its_three_values_set] ghost(ncalls_NewNode) == atHead(ghost(ncalls_NewNode)) + 1 && ghost(ncalls_ConnectNodes) == atHead(ghost(ncalls_ConnectNodes)) + 3 && ghost(ncalls_SetLength) == atHead(ghost(ncalls_SetLength)) + 3 && ghost(ncalls_SetSupport) == atHead(ghost(ncalls_SetSupport)) + 3 && ghost(ncalls_SetPValue) == atHead(ghost(ncalls_SetPValue)) + 3
 //@   loop 4
 //@     complete [all_iterations_no_early_exit]
+//@     invariant [two_branches_are_moved_under_the_new_node] 0 <= i && i <= 2 && ghost(ncalls_ConnectNodes) == lold(ghost(ncalls_ConnectNodes)) + i && ghost(ncalls_SetLength) == lold(ghost(ncalls_SetLength)) + i && ghost(ncalls_SetSupport) == lold(ghost(ncalls_SetSupport)) + i && ghost(ncalls_SetPValue) == lold(ghost(ncalls_SetPValue)) + i && ghost(ncalls_NewNode) == lold(ghost(ncalls_NewNode))
+//@     step [every_moved_branch_is_detached_on_both_sides_re_created_and_given_its_length_support_and_pvalue_whatever_they_are] next(i) == i + 1 && ghost(ncalls_delNeighbor) == atHead(ghost(ncalls_delNeighbor)) + 2 && ghost(ncalls_ConnectNodes) == atHead(ghost(ncalls_ConnectNodes)) + 1 && ghost(ncalls_SetLength) == atHead(ghost(ncalls_SetLength)) + 1 && ghost(ncalls_SetSupport) == atHead(ghost(ncalls_SetSupport)) + 1 && ghost(ncalls_SetPValue) == atHead(ghost(ncalls_SetPValue)) + 1
 
 //@ define lowsupport(e *Edge, s float64) bool = e.support != -1 && e.support < s
 //@ define shortbranch(e *Edge, l float64) bool = e.length <= l
